@@ -274,6 +274,15 @@ def deletion_rules(repo):
     for s in fi.node.body:
         if isinstance(s, ast.Assign) and len(s.targets) == 1:
             src.setdefault(unparse(s.targets[0]), []).append(s)
+    role = "the deletion indicator has one row per example and one column per position"
+    mb = [s_ for s_ in fi.node.body if isinstance(s_, ast.Assign) and unparse(s_.targets[0]) == "mask"]
+    t0 = unparse(mb[0].value) if mb else ""
+    if t0 in ("torch.zeros_like(X[:, 0]).type(torch.int32)", "torch.zeros_like(X[:, 0], dtype=torch.int32)", "torch.zeros(X.shape[0], X.shape[-1], dtype=torch.int32)"):
+        out.append(holds("DEL", fi, role, t0, mb[0], nontrivial=False))
+    elif "X[0" in t0 or "X[:, :, 0]" in t0:
+        out.append(violation("DEL", fi, role, "indicator is built from `%s`: its axes are not (example, position)" % t0, mb[0]))
+    else:
+        out.append(unrecognised("DEL", fi, role, t0))
     # deletions marked at their own (example, position)
     role = "user deletions are marked at [deletions[:,0], deletions[:,1]]"
     marks = [s for s in fi.node.body if isinstance(s, ast.Assign) and isinstance(s.targets[0], ast.Subscript)
